@@ -5,7 +5,6 @@ package harness
 import (
 	"crypto/sha256"
 	"encoding/base64"
-	"encoding/binary"
 	"fmt"
 	"math"
 	"math/big"
@@ -426,11 +425,13 @@ func TestC13(t *testing.T) {
 		"Definition M := Eval vm_compute in failures_from 0 (map check_hcase cases" + extraM + ").\nPrint M.\n"
 	require.NoError(t, cf.Write(filepath.Join(OutDir(), "cases_C13.v")))
 
-	st.Histories = len(c.cases)
+	st.Samples = append([]any{
+		map[string]any{"helper": "divideFundsEvenly", "input": "amount=16 n=3", "callbacks": "[(0,6) (1,5) (2,5)]"},
+		map[string]any{"helper": "neoFSRuntimeTransactionModifier", "input": "height=4294967245 state=HALT", "nonce": 4294967200, "validUntilBlock": 4294967295},
+	}, st.Samples...)
+	st.Histories += len(c.cases)
 	st.DistinctNontrivial = c.nontr
 	st.Rule = "distinct (helper, input, observed output) cases written to cases_C13.v, not counting divide cases with no callback and refused window cases; plus distinct notary-bootstrap runs (committee size, live set, schedule) that sent at least one transaction"
 	st.Write()
 	require.Empty(t, st.Violations)
 }
-
-var _ = binary.BigEndian
